@@ -47,6 +47,7 @@ followed by another operation; distinct = distinct case hashes.",
     assumptions: &["the array+cursor model below (about 40 lines)", "D10: seek targets <= 2^62"],
     run,
     replay,
+    from_bytes: None,
 };
 
 /// The reference: an array and a cursor.
@@ -314,7 +315,7 @@ fn run(ctx: &Ctx, env: &Env) -> Stats {
             }));
         }
     }
-    let n_rand = ctx.t(10_000u64, 300_000);
+    let n_rand = ctx.t(20_000u64, 600_000);
     for j in 0..8 {
         jobs.push(Box::new(move |ctx: &Ctx| {
             let mut part = Part::new(ctx, format!("random/{}", j), "proptest byte strings decoded into call sequences up to length 200", false);
